@@ -944,7 +944,9 @@ func (handler *Handler) QueryResponseHandler(ctx context.Context, packet *Packet
 			return err
 		}
 	}
-	handler.resetQueryHandler()
+	// (the handler was reset at the beginning: once the response is written the client may already have
+	// sent its next command and the client side may have installed the handler for it - a reset here
+	// would throw that handler away and the next result set would be relayed unprocessed)
 	handler.logger.Debugln("Query handler finish")
 	return nil
 }
@@ -967,6 +969,10 @@ func (handler *Handler) PreparedStatementResponseHandler(ctx context.Context, pa
 	preparedStmt := NewPreparedStatement(response.StatementID, response.ParamsNum, queryObj.Query(), statement)
 	handler.registry.AddStatement(NewPreparedStatementItem(preparedStmt, nil))
 
+	// reset before the response is written: afterwards the client may already have sent its next
+	// command and the client side may have installed the handler for it
+	handler.resetQueryHandler()
+
 	// proxy output
 	handler.logger.Debugln("PreparedStatementResponseHandler.Proxy output")
 	if _, err := clientConnection.Write(packet.Dump()); err != nil {
@@ -975,7 +981,6 @@ func (handler *Handler) PreparedStatementResponseHandler(ctx context.Context, pa
 		return err
 	}
 
-	handler.resetQueryHandler()
 	// if prams_num > 0 params definition block will follow
 	// https://dev.mysql.com/doc/internals/en/com-stmt-prepare-response.html
 	if response.ParamsNum > 0 {
